@@ -373,11 +373,11 @@ func checkC20Par(c c20ParCase) error {
 				if ec.Skip != "" {
 					switch ec.Skip {
 					case "Skipf":
-						Skipf(ft, "s")
+						callSkip(func() { Skipf(ft, "s") })
 					case "SkipNow":
-						SkipNow(ft)
+						callSkip(func() { SkipNow(ft) })
 					default:
-						Skip(ft)
+						callSkip(func() { Skip(ft) })
 					}
 					e, l := ft.drain()
 					results[i] = append(results[i], obs{e, l})
